@@ -166,8 +166,9 @@ AnyP::Uri::SlashPath()
 void
 AnyP::Uri::host(const char *src)
 {
-    hostAddr_.fromHost(src);
-    if (hostAddr_.isAnyAddr()) {
+    // the "any" address is what a failed conversion leaves behind, but it is
+    // also a legitimate literal ([::] or 0.0.0.0); trust the conversion result
+    if (!hostAddr_.fromHost(src)) {
         xstrncpy(host_, src, sizeof(host_));
         hostIsNumeric_ = false;
     } else {
